@@ -681,6 +681,11 @@ func (mvcc *MVCCLevelDB) pessimisticLockMutation(batch *leveldb.Batch, mutation 
 			}
 			return dec.lock.lockErr(mutation.Key)
 		}
+		if dec.lock.op != kvrpcpb.Op_PessimisticLock {
+			// The transaction has already prewritten this key. Like TiKV, refuse the request: a pessimistic lock must
+			// not replace the prewrite lock and the value it carries.
+			return ErrAbort("pessimistic lock request on a key the transaction has already prewritten")
+		}
 	}
 
 	// For pessimisticLockMutation, check the corresponding rollback record, there may be rollbackLock
